@@ -18,6 +18,12 @@
   as with WebSocket frames arriving apart) or after the whole flush (`settle='batch'`: several
   packets of one polling payload are processed without the loop getting a turn, the tasks start
   afterwards in creation order).
+* the server's client manager (`manager=`): `default` (in memory), `pubsub` — the real `PubSubManager` /
+  `AsyncPubSubManager` over the in-memory channel of world_pubsub (messages pickled, one host: its own messages
+  come back to its listener) — or `pubsub2`: a second host `hA` on the channel on which the application issues
+  emit/send/call while the client is connected to host `hB`.  No listener task exists: whenever the link is
+  pumped every host that is behind the channel runs the real `_thread()` over what has been published so far
+  (hB first, then hA); what a listener logs as an exception counts as an error of the burst.
 * nothing runs concurrently: `pump()` moves the queued traffic until both directions are empty;
   `call()` has its wait scripted (threads: the event's `wait()` pumps the link; asyncio: the call
   is a task of the private loop, the link is pumped while it is suspended).  No wall-clock waits.
@@ -168,7 +174,13 @@ class ScriptedEvent:
 class E2EWorld:
     TID = 'T0'
 
-    def __init__(self, mode, serializer, framing, namespaces, rng, async_handlers=False, settle='frame'):
+    MANAGERS = ('default', 'pubsub', 'pubsub2')
+
+    def __init__(self, mode, serializer, framing, namespaces, rng, async_handlers=False, settle='frame',
+                 manager='default'):
+        if manager not in self.MANAGERS:
+            raise common.Infra('unknown client manager kind %r' % (manager,))
+        self.manager_kind = manager
         self.mode = mode
         self.is_async = mode == 'asyncio'
         self.serializer = serializer
@@ -183,9 +195,42 @@ class E2EWorld:
         self.errors = []                    # exceptions contained by engine.io on either side
         self._pumping = False
         self.b64_packets = 0                # binary packets that travelled base64-framed
-        self.sw = W.ServerWorld(mode, serializer=serializer, async_handlers=async_handlers,
-                                namespaces='*')
+        # the server's client manager: the default in-memory one, or ('pubsub') the real PubSubManager /
+        # AsyncPubSubManager over an in-memory channel (world_pubsub: `_publish` pickles onto a shared list,
+        # `_listen` is a generator over this host's cursor), or ('pubsub2') the same with a second host on the
+        # channel: the application's emit/send/call are issued on host hA, the client is connected to host hB
+        self.chan = None
+        self.hosts = []                     # (ServerWorld, manager) in the order their listeners are served
+        self.listen_log = []                # what the listeners logged through server.logger
+        self.listener_messages = 0          # channel entries consumed by the listeners
+        self.issuer = None
+        extra = {}
+        mgr = None
+        if manager != 'default':
+            from . import world_pubsub as WP
+            mcls = WP.manager_class(mode)
+            self.chan = WP.Channel()
+            mgr = mcls(self.chan, 'hB')
+            extra = dict(logger=WP._Log(self.listen_log, 'hB'))
+        self.sw = W.ServerWorld(mode, manager=mgr, serializer=serializer, async_handlers=async_handlers,
+                                namespaces='*', **extra)
         self.loop = self.sw.loop
+        if mgr is not None:
+            self._adopt(self.sw, mgr)
+        if manager == 'pubsub2':
+            from . import world_pubsub as WP
+            mgr_a = mcls(self.chan, 'hA')
+            self.issuer = W.ServerWorld(mode, manager=mgr_a, serializer=serializer,
+                                        async_handlers=async_handlers, namespaces='*',
+                                        logger=WP._Log(self.listen_log, 'hA'))
+            if self.is_async:
+                self.issuer.loop.close()    # one loop for the whole world
+                self.issuer.loop = self.loop
+            self._adopt(self.issuer, mgr_a)
+        self.api_sw = self.issuer or self.sw            # where the application calls emit/send/call
+        # acknowledgement ids on the wire per emit-with-callback: a single pub/sub host numbers the
+        # application's callback and then the relaying callback of the local delivery (the second one travels)
+        self.ack_id_step = 2 if manager == 'pubsub' else 1
         self.executor = None
         if self.is_async:
             self.executor = HarnessExecutor()
@@ -210,6 +255,34 @@ class E2EWorld:
             raise common.Infra('e2e namespaces not connected: %r' % (self.client.namespaces,))
         self.sids = dict(self.client.namespaces)
         self.wire = {'c2s': [], 's2c': []}
+
+    # ------------------------------------------------------------ pub/sub hosts
+    def _adopt(self, sw, mgr):
+        mgr.initialize()                    # what the first request would do
+        sw.sio.manager_initialized = True
+        sw.background.clear()               # the listener is never started as a task: `_listeners()` runs it
+        self.hosts.append((sw, mgr))
+
+    def _listeners(self):
+        """Every host whose cursor is behind the channel runs the REAL `_thread()` over what has been published
+        so far (the generator then returns, `_thread` logs that and ends).  -> did anything move?  A host's own
+        messages come back to it as on a real queue."""
+        moved = False
+        for sw, mgr in self.hosts:
+            n = len(self.chan.msgs)
+            if mgr.cursor >= n:
+                continue
+            self.listener_messages += n - mgr.cursor
+            mgr.limit = n
+            before = len(self.listen_log)
+            r = sw.run(mgr._thread)
+            if r[0] != 'ok':
+                self.errors.append(('listener', r[1]))
+            for _h, level, _msg, cls in self.listen_log[before:]:
+                if level == 'exception':
+                    self.errors.append(('listener', cls))
+            moved = True
+        return moved
 
     # ------------------------------------------------------------ plumbing
     def _run(self, fn, *a, **k):
@@ -246,7 +319,7 @@ class E2EWorld:
         try:
             moved = True
             while moved:
-                moved = False
+                moved = self._listeners() if self.hosts else False
                 if self.c2s:
                     batch, self.c2s = self.c2s, []
                     for data in self._transport(batch):
@@ -311,6 +384,8 @@ class E2EWorld:
                         self.errors.append(('server', cls))
                 self._concurrently(feed, arrived, gaps, exec_lifo, info, server=True)
             else:
+                if self.hosts:
+                    self._listeners()       # what host hA published reaches the client's host first
                 out = [d for d in self.sw.sent(self.TID) if not isinstance(d, tuple)]
                 arrived = self._transport([eio_packet.Packet(MESSAGE, d) for d in out])
                 self.wire['s2c'] += arrived
@@ -488,15 +563,15 @@ class E2EWorld:
             return self._run(self.client.emit, ev, data, namespace=ns, callback=cb)
         sid = self.sids[ns]
         if use_send:
-            return self._run(self.sw.sio.send, data, to=sid, namespace=ns, callback=cb)
-        return self._run(self.sw.sio.emit, ev, data, to=sid, namespace=ns, callback=cb)
+            return self._run(self.api_sw.sio.send, data, to=sid, namespace=ns, callback=cb)
+        return self._run(self.api_sw.sio.emit, ev, data, to=sid, namespace=ns, callback=cb)
 
     def call(self, side, ev, data, ns):
         """call() by `side`; -> ('ok', value) | ('exc', class) | ('timeout',)"""
         if side == 'client':
             fn, kw, eio = self.client.call, dict(namespace=ns), self.ceio
         else:
-            fn, kw, eio = self.sw.sio.call, dict(to=self.sids[ns], namespace=ns), self.sw.eio
+            fn, kw, eio = self.api_sw.sio.call, dict(to=self.sids[ns], namespace=ns), self.api_sw.eio
         if not self.is_async:
             orig = eio.create_event
             eio.create_event = lambda *a, **k: ScriptedEvent(self)
@@ -532,4 +607,6 @@ class E2EWorld:
             eio_base.connected_clients.remove(self.ceio)
         except ValueError:
             pass
+        if self.issuer is not None and not self.is_async:
+            self.issuer.close()             # (asyncio: the loop is the client host's, closed below)
         self.sw.close()
